@@ -907,4 +907,93 @@ C11_DeletedStaysEmpty ==
     \A c \in Cons(p) : p.cons[c].phase = "deleted" =>
       (p.cons[c].cvs = << >> /\ p.cons[c].optedIn = << >> /\ p.cons[c].valKey = << >> /\ p.cons[c].client = "")
 
+
+(* ======================================================================= *)
+(* C17  consumers, light clients and CCV channels are bound one to one      *)
+(* ======================================================================= *)
+
+WithClient(s) == { c \in Cons(s) : s.cons[c].client # "" }
+WithChan(s)   == { c \in Cons(s) : s.cons[c].chan # "" }
+
+C17_ClientInjective ==
+  (IsProv(E) /\ E.a # "Init") =>
+    /\ \A c1, c2 \in WithClient(p) : (c1 # c2) => p.cons[c1].client # p.cons[c2].client
+    /\ \A c \in WithClient(p) : Has(p.cl2c, p.cons[c].client) /\ p.cl2c[p.cons[c].client] = c
+    /\ \A k \in DOMAIN p.cl2c : p.cl2c[k] \in Cons(p) /\ p.cons[p.cl2c[k]].client = k
+
+C17_ChannelInjective ==
+  (IsProv(E) /\ E.a # "Init") =>
+    /\ \A c1, c2 \in WithChan(p) : (c1 # c2) => p.cons[c1].chan # p.cons[c2].chan
+    /\ \A c \in WithChan(p) : Has(p.ch2c, p.cons[c].chan) /\ p.ch2c[p.cons[c].chan] = c
+    /\ \A k \in DOMAIN p.ch2c : p.ch2c[k] \in Cons(p) /\ p.cons[p.ch2c[k]].chan = k
+
+\* the channel bound to a consumer is an ordered channel built directly on that consumer's client
+C17_Attribution ==
+  (IsProv(E) /\ E.a # "Init") =>
+    \A c \in WithChan(p) :
+      LET ch == p.cons[c].chan IN
+      (ch \in DOMAIN p.chans) =>
+        /\ p.chans[ch].client = p.cons[c].client
+        /\ p.chans[ch].order = "ORDER_ORDERED"
+
+ConnOwner(s, conn) ==
+  LET cl == IF conn \in DOMAIN s.conns THEN s.conns[conn] ELSE "" IN
+  IF cl \in DOMAIN s.cl2c THEN s.cl2c[cl] ELSE "none"
+
+TryAcceptable(s, a) ==
+  LET o == ConnOwner(s, a.conn) IN
+  /\ a.order = "ORDER_ORDERED" /\ a.pport = "provider" /\ a.cport = "consumer" /\ a.version = "1" /\ a.hops = 1
+  /\ o # "none" /\ s.cons[o].client = s.conns[a.conn] /\ s.cons[o].chan = ""
+
+C17_Try == [][
+  (PStep /\ Txn(Ev, "ChanOpenTry") /\ Has(Ev.args, "order")) =>
+    /\ OkTx(Ev) => TryAcceptable(p, Ev.args)
+    /\ (Has(Ev.args, "coreOk") /\ TryAcceptable(p, Ev.args)) => OkTx(Ev)
+    /\ p'.cons = p.cons   \* a Try never binds anything
+  ]_vars
+
+C17_Confirm == [][
+  (PStep /\ Txn(Ev, "ChanOpenConfirm") /\ Has(Ev.args, "chan")) =>
+    LET o == ConnOwner(p, Ev.args.conn) IN
+    /\ OkTx(Ev) => ( /\ o # "none" /\ p.cons[o].chan = ""
+                     /\ p'.cons[o].chan = Ev.args.chan /\ p'.ch2c[Ev.args.chan] = o
+                     /\ p'.cons[o].initChainH.present /\ p'.cons[o].initChainH.v = p'.h )
+    /\ (o # "none" /\ p.cons[o].chan # "") => ~OkTx(Ev)
+  ]_vars
+
+\* the provider never initiates or acknowledges a CCV handshake
+C17_InitAck == [][
+  (PStep /\ (Txn(Ev, "ChanOpenInit") \/ Txn(Ev, "ChanOpenAck")) /\ Has(Ev.args, "pport") /\ Ev.args.pport = "provider") => ~OkTx(Ev)
+  ]_vars
+
+\* bindings change only by a launch, a confirmed handshake, or the consumer's deletion
+C17_BindingsOnlyThere == [][
+  PStep =>
+    \A c \in Cons(p) \cap Cons(p') :
+      /\ (p'.cons[c].chan # p.cons[c].chan) =>
+           \/ (Txn(Ev, "ChanOpenConfirm") /\ OkTx(Ev) /\ p.cons[c].chan = "")
+           \/ (Ev.a = "PRemoveOK" /\ Ev.args.c = c /\ p'.cons[c].chan = "")
+      /\ (p'.cons[c].client # p.cons[c].client) =>
+           \/ (Ev.a = "PLaunchOK" /\ Ev.args.c = c /\ p.cons[c].client = "")
+           \/ (Ev.a = "PRemoveOK" /\ Ev.args.c = c /\ p'.cons[c].client = "")
+  ]_vars
+
+\* consumer side: channels are opened only over the recorded provider client, not after the CCV channel exists;
+\* the channel adopted is the one the first validator-set packet arrives on, and packets never arrive on another
+C17_ConsumerInit == [][
+  (CStep /\ Txn(Ev, "ChanOpenInit") /\ Has(Ev.args, "order") /\ OkTx(Ev) /\ Ev.args.cport = "consumer") =>
+    LET st == cs[Ev.chain] IN
+    /\ Ev.args.order = "ORDER_ORDERED" /\ Ev.args.pport = "provider" /\ Ev.args.version = "1"
+    /\ Has(st.conns, Ev.args.cconn) /\ st.conns[Ev.args.cconn] = st.provClient
+    /\ st.provChan = ""
+  ]_vars
+
+C17_FirstVSC == [][
+  (CStep /\ Txn(Ev, "Recv") /\ OkTx(Ev) /\ Has(Ev.res, "recv")) =>
+    LET st == cs[Ev.chain]  st2 == cs'[Ev.chain]  r == Ev.res.recv IN
+    \A i \in DOMAIN r : (r[i].type = "vsc" /\ Has(r[i], "dstChan")) =>
+      /\ st2.provChan = r[i].dstChan
+      /\ (st.provChan # "") => st.provChan = r[i].dstChan
+  ]_vars
+
 =============================================================================
